@@ -362,7 +362,9 @@ func execC01(c CaseC01) *Outcome {
 						if cl.Stores[a].OpLog().Len() == 0 {
 							continue
 						}
-						if err := syncFrom(cl, pi, a); err != nil {
+						// (every entry is announced, not only the heads: after an earlier bounded load the
+						// replica holds the heads already and an announcement of them alone brings nothing)
+						if err := syncAllFrom(cl, pi, a); err != nil {
 							if err == world.ErrInconclusive {
 								o.Inconclusive = true
 								return o
